@@ -59,12 +59,12 @@ func (g *sysRig) load(s ref.State, stale bool, r *vf.Rng, img *mem.Image) {
 // hookPlan is one program-counter callback that acts on its own CPU.
 type hookPlan struct {
 	at   uint32
-	kind int // 0 redirect to `to`, 1 request IRQ, 2 request NMI, 3 toggle carry, 4 one-shot (removes itself)
+	kind int // 0 redirect to `to`, 1 request IRQ, 2 request NMI, 3 toggle carry, 4 one-shot (removes itself), 5 resets the CPU's running cycle total (a host sampling it per frame)
 	to   uint32
 }
 
 func (h hookPlan) String() string {
-	return fmt.Sprintf("$%06x:%s", h.at, []string{fmt.Sprintf("jump-to-$%06x", h.to), "request-irq", "request-nmi", "toggle-carry", "one-shot"}[h.kind])
+	return fmt.Sprintf("$%06x:%s", h.at, []string{fmt.Sprintf("jump-to-$%06x", h.to), "request-irq", "request-nmi", "toggle-carry", "one-shot", "reset-cycle-total"}[h.kind])
 }
 
 // installHooks registers the plan on c. maxCalls bounds the number of callback invocations (0: no
@@ -101,6 +101,8 @@ func installHooks(c *cpu65c816.CPU, plan []hookPlan, pending int, maxCalls int) 
 			c.OnPC[h.at] = guard(func() { c.Interrupt = 2 })
 		case 3:
 			c.OnPC[h.at] = guard(func() { c.C ^= 1 })
+		case 5:
+			c.OnPC[h.at] = guard(func() { c.AllCycles = uint64(h.to & 0xFF) })
 		default:
 			c.OnPC[h.at] = guard(func() { delete(c.OnPC, h.at) })
 		}
@@ -572,7 +574,7 @@ func C12(r *vf.Run) {
 					var plan []hookPlan
 					if g.Intn(3) == 0 {
 						for h := 1 + g.Intn(3); h > 0; h-- {
-							hp := hookPlan{at: pcs[g.Intn(len(pcs))], kind: g.Intn(5), to: pcs[g.Intn(len(pcs))]}
+							hp := hookPlan{at: pcs[g.Intn(len(pcs))], kind: g.Intn(6), to: pcs[g.Intn(len(pcs))]}
 							if g.Intn(3) == 0 && len(plan) > 0 {
 								// hooks redirecting to each other's address
 								hp.kind, hp.to = 0, plan[len(plan)-1].at
